@@ -194,8 +194,8 @@ pub fn oracle(ctx: &mut Ctx, case: &MuxCase) -> Check {
 
 fn enum_tracks() -> Vec<MTrack> {
     vec![
-        MTrack { kind: MKind::Avc { width: 16, height: 16, sps: vec![0x67, 0x42, 0xc0, 0x1e], pps: vec![0x68, 0xce] }, timescale: 2, language: "und".into(), preset: false },
-        MTrack { kind: MKind::Aac { profile: 2, freq_index: 3, chan: 2, bitrate: 0 }, timescale: 2, language: "eng".into(), preset: false },
+        MTrack { kind: MKind::Avc { width: 16, height: 16, sps: vec![0x67, 0x42, 0xc0, 0x1e], pps: vec![0x68, 0xce] }, timescale: 2, language: "und".into(), preset: false, ttype: 0 },
+        MTrack { kind: MKind::Aac { profile: 2, freq_index: 3, chan: 2, bitrate: 0 }, timescale: 2, language: "eng".into(), preset: false, ttype: 0 },
     ]
 }
 
